@@ -100,7 +100,7 @@ def run(R):
     R.extra['grammars'] = len(jobs)
     for i in range(0, len(jobs), 2000):
         recs = gramrun.run_grammars(jobs[i:i + 2000])
-        gramrun.compare(R, recs, 'core')
+        gramrun.compare(R, recs, 'core', reject_is_violation=True)
     R.assumptions += ['regular expressions are an oracle (tables computed with Python re for each text)',
                       'generated grammars are filtered by a static well-formedness test (no nullable under repetition); '
                       'ill-formed ones are outside the property']
